@@ -5,7 +5,7 @@
 (*   Arrive(r, d)  request r is released with deadline d                      *)
 (*   Tick(d)       time advances; batches whose runtime has elapsed leave      *)
 (*                 their worker                                                *)
-(*   Invoke*       one schedule() call: admission ; per worker (expiry of all *)
+(*   Invoke        one schedule() call: admission ; per worker (expiry of all *)
 (*                 queues ; model loop) ; the caller applies the answer       *)
 (*                                                                            *)
 (* The order of everything that the implementation fixes is transcribed       *)
@@ -251,8 +251,9 @@ Answer ==
         S == Inference([q |-> A.q, av |-> free, pl |-> <<>>], 1, A.mo, now)
     IN [q |-> S.q, mo |-> A.mo, canc |-> A.canc, pl |-> S.pl, free |-> free]
 
-Invoke ==
-    LET a == Answer IN
+\* (the answer is an operator argument, not a LET: TLC re-evaluates action-level LET
+\* definitions at every use)
+Invoke(a) ==
     /\ queue' = a.q /\ morder' = a.mo
     /\ cancelled' = cancelled \cup a.canc
     /\ nplaced' = [r \in R |-> nplaced[r] + Cardinality({i \in DOMAIN a.pl : r \in ToSet(a.pl[i].reqs)})]
@@ -263,9 +264,11 @@ Invoke ==
     /\ obs' = Observe(running')
     /\ UNCHANGED <<now, arrived, dl>>
 
+Schedule == Invoke(Answer)
+
 Next == \/ \E r \in R : \E d \in Reqs[r].dls : Arrive(r, d)
         \/ \E d \in Steps : Tick(d)
-        \/ Invoke
+        \/ Schedule
 
 Spec == Init /\ [][Next]_vars
 
@@ -308,16 +311,18 @@ CallOf(j) == [now |-> j.now, offered |-> ToSet(j.offered), cancelled |-> ToSet(j
               batches |-> j.batches, free |-> j.free,
               loaded |-> [w \in DOMAIN j.loaded |-> ToSet(j.loaded[w])], failed |-> ToSet(j.failed)]
 
+\* (TimesPlaced and the counters read the raw JSON calls: batches / now / free have the same
+\* shape there; the converted call is built once per call, as an operator argument)
+CallBadAt(wd, c, j) == {<<j, x[1], x[2]>> : x \in CallBad(wd, c)}
 HistBad(h) ==
-    LET calls == [j \in DOMAIN h.calls |-> CallOf(h.calls[j])]
-    IN  UNION {{<<j, x[1], x[2]>> : x \in CallBad(h.world, calls[j])} : j \in DOMAIN calls}
-        \cup {<<0, "C15.placed_once", r>> : r \in {r \in DOMAIN h.world.reqs : TimesPlaced(calls, r) > 1}}
+    UNION {CallBadAt(h.world, CallOf(h.calls[j]), j) : j \in DOMAIN h.calls}
+    \cup {<<0, "C15.placed_once", r>> : r \in {r \in DOMAIN h.world.reqs : TimesPlaced(h.calls, r) > 1}}
 
-HistCount(h, F(_, _)) == SumSeq([j \in DOMAIN h.calls |-> F(h.world, CallOf(h.calls[j]))])
+HistCount(h, F(_, _)) == SumSeq([j \in DOMAIN h.calls |-> F(h.world, h.calls[j])])
 NBatches(wd, c) == Len(c.batches)
 NMulti(wd, c) == Cardinality({i \in DOMAIN c.batches : c.batches[i].b > 1})
-NLate(wd, c) == Cardinality({r \in c.offered : Late(wd, c, r)})
-NCancelled(wd, c) == Cardinality(c.cancelled)
+NLate(wd, c) == Cardinality({r \in ToSet(c.offered) : Late(wd, c, r)})
+NCancelled(wd, c) == Len(c.cancelled)
 NTight(wd, c) == Cardinality({i \in DOMAIN c.batches :
                      \E p \in DOMAIN c.batches[i].reqs : c.now + c.batches[i].rt = wd.reqs[c.batches[i].reqs[p]].dl})
 NFullWorker(wd, c) == Cardinality({w \in DOMAIN c.free :
